@@ -639,11 +639,59 @@ def causekind_scenarios() -> list[Scenario]:
     return out
 
 
+class SubCriteriaScenario(ChangeScenario):
+    """Sub-handlers are handlers: the ones a parent declares WITH criteria (labels, annotations, field/value, when) are invoked exactly when
+    their criteria hold for the object - in the creation cycle, and in the update cycle after the object was relabelled / its field changed."""
+    name = 'c15-subcriteria'
+    prop = 'C15'
+
+    def check(self, env: Env) -> list[Violation]:
+        if env.end_reason in ('stall', 'livelock', 'step-budget', 'deadlock'):
+            return [self.viol(env, 'no-progress', f'execution ended with {env.end_reason}', end=env.end_reason)]
+        if env.deviations or env.owes() or self.carveouts(env):
+            return []
+        out: list[Violation] = []
+        for reason, want in self.params['expected'].items():
+            got = sorted({p['id'] for _, k, p in env.obs if k == 'call' and p.get('reason') == reason and '/' in p['id']})
+            if got != sorted(want):
+                out.append(self.viol(env, 'wrong-selection', f"sub-handlers invoked in the {reason} cycle: {got}; the declared criteria select {sorted(want)}",
+                                     clause='exact', family='sub-handlers', extra=sorted(set(got) - set(want)), missing=sorted(set(want) - set(got))))
+        from kv.harness.change import any_progress_keys
+        obj = env.world.get(self.kind, 'ns', 'a')
+        if obj is not None and any_progress_keys(obj):
+            out.append(self.viol(env, 'wrong-selection', f"the cycle never closed: progress records {any_progress_keys(obj)} are left on the object", clause='exact', family='sub-handlers',
+                                 extra=['cycle-open'], missing=[]))
+        return out
+
+
+def subcriteria_scenarios() -> list[SubCriteriaScenario]:
+    subs = [dict(id='plain'), dict(id='lyes', labels={'on': 'yes'}), dict(id='lno', labels={'on': 'no'}), dict(id='labs', labels={'off': 'ABSENT'}),
+            dict(id='lpre', labels={'off': 'PRESENT'}), dict(id='apre', annotations={'note': 'PRESENT'}), dict(id='wtrue', when='true'), dict(id='wfalse', when='false'),
+            dict(id='fv1', field='spec.x', value=1), dict(id='fv2', field='spec.x', value=2), dict(id='fretry', labels={'on': 'no'}, script=['temp', 'ok'])]
+    handlers = [dict(id='p', on='create', script=['ok']), dict(id='q', on='update', script=['ok'])]
+    out = []
+    # created with on=yes, x=1; then relabelled on=no (+ off=v) and x:=2
+    exp_create = ['p/plain', 'p/lyes', 'p/labs', 'p/wtrue', 'p/fv1']
+    exp_update = ['q/plain', 'q/lno', 'q/lpre', 'q/wtrue', 'q/fv2', 'q/fretry']
+    for lc in ('asap', 'all_at_once'):
+        user = [(1.0, 'createl', 'a', 'on', 'yes'), (10.0, 'label', 'a', 'off', 'v'), (20.0, 'label', 'a', 'on', 'no'), (30.0, 'spec', 'a', 2)]
+        # three update cycles: judge the union per reason (the last one has every criterion of the update list true)
+        out.append(SubCriteriaScenario(handlers=handlers, subs={'p': subs, 'q': subs}, lifecycle=lc, user=[user[0]], horizon=25.0,
+                                       expected={'create': exp_create}, settings={'persistence__consistency_timeout': 5.0},
+                                       delays=False, early_user=False, time_dev=False))
+        out.append(SubCriteriaScenario(handlers=handlers, subs={'p': subs, 'q': subs}, lifecycle=lc,
+                                       user=[(1.0, 'createl', 'a', 'on', 'no'), (1.0, 'noop'), (12.0, 'spec', 'a', 2)], horizon=40.0,
+                                       expected={'create': ['p/plain', 'p/lno', 'p/labs', 'p/wtrue', 'p/fv1', 'p/fretry'],
+                                                 'update': ['q/plain', 'q/lno', 'q/labs', 'q/wtrue', 'q/fv1', 'q/fv2', 'q/fretry']},
+                                       settings={'persistence__consistency_timeout': 5.0}, delays=False, early_user=False, time_dev=False))
+    return out
+
+
 def run(tier: str, seed: int) -> CheckResult:
     stats = Stats()
     viols = table(tier, stats) + duplicates(stats) + multikey(stats) + selectors(stats)
     groups = [('stealth', stealth_scenarios(tier), 1 if tier == 'quick' else 2, 40.0 if tier == 'quick' else 400.0),
-              ('cause-kind', causekind_scenarios(), 0, 40.0), ('falsy-values-of-a-status-field', statusfield_scenarios(), 0, 30.0)]
+              ('cause-kind', causekind_scenarios(), 0, 40.0), ('falsy-values-of-a-status-field', statusfield_scenarios(), 0, 30.0), ('sub-handler-criteria', subcriteria_scenarios(), 0, 20.0)]
     st2, v2, info, nscen = run_groups(groups, seed=seed)
     table_evals = stats.executions
     stats.merge(st2)
@@ -669,6 +717,8 @@ def scenario_from(name: str, params: dict[str, Any]) -> Scenario:
         return globals()['CauseKindScenario'](**params)
     if name == 'c15-statusfield':
         return StatusFieldScenario(**params)
+    if name == 'c15-subcriteria':
+        return SubCriteriaScenario(**params)
     return StealthScenario(**params)
 
 
